@@ -384,4 +384,45 @@ example : (dateOfYo 2024 60).month0 = .ok 1 ∧ (dateOfYo 2024 60).day0 = .ok 28
     (dateOfYo 2024 60).ordinal0 = .ok 59 ∧ Date.MIN.month0 = .ok 0 ∧ Date.MAX.day0 = .ok 30 ∧
     Date.month0 ⟨0⟩ = .panic := by decide +kernel
 
+/-- **the domain device is the representation invariant**: a packed word satisfies `DateInv` (year in
+range, ordinal exists in that year, low bits are the year's flags — Spec/DateSpec.lean) exactly when it
+is `dateOfYo y o` for a year of the range and an existing ordinal.  So the theorems of this file,
+quantified over `dateOfYo y o`, are about exactly the values with the invariant (which C15 proves every
+constructor and operation returns). -/
+theorem date_invariant_iff (d : Date) :
+    DateInv d ↔ ∃ (y : Int) (o : Nat), d = dateOfYo y o ∧ MIN_YEAR ≤ y ∧ y ≤ MAX_YEAR ∧ 1 ≤ o ∧
+      o ≤ yearLen y := by
+  constructor
+  · intro h
+    obtain ⟨he, p1, p2, _⟩ := inv_eq d h
+    exact ⟨_, _, he, h.1, h.2.1, p1, p2⟩
+  · rintro ⟨y, o, rfl, a, b, c, e⟩
+    exact (inv_of_yo y o ⟨a, b⟩ ⟨c, e⟩).1
+
+example : DateInv Date.MIN ∧ DateInv Date.MAX ∧ ¬ DateInv Date.BEFORE_MIN ∧ ¬ DateInv Date.AFTER_MAX ∧
+    ¬ DateInv ⟨2023 * 8192 + 366 * 16 + flagsOf 2023⟩ ∧ ¬ DateInv ⟨2024 * 8192 + 60 * 16 + 0⟩ := by
+  decide +kernel
+
+/-- **week 1 contains 4 January** on the accessor itself: for every year of the range, 4 January has
+ISO year = calendar year and ISO week 1 (the clause of the statement, read off `iso_week` directly) -/
+theorem jan4_in_week1 (y : Int) (hy : MIN_YEAR ≤ y ∧ y ≤ MAX_YEAR) :
+    ∃ ywf, Date.iso_week (dateOfYo y 4) = .ok ywf ∧ IsoWeek.year ywf = y ∧ IsoWeek.week ywf = 1 := by
+  have hl := yearLen_ge y
+  obtain ⟨ywf, Y, ot, h1, h2, h3, h4, h5, h6, _, _⟩ := iso_week_spec y 4 hy ⟨by omega, by omega⟩
+  have hk : ∃ k : Nat, 1 ≤ k ∧ k ≤ 7 ∧ dayNumYo y k = isoThursday (dayNumYo y ((4 : Nat) : Int)) := by
+    unfold isoThursday weekdayOf dayNumYo
+    generalize daysBeforeYear y = D
+    refine ⟨(7 - ((D + 4 + 6) % 7)).toNat, ?_, ?_, ?_⟩ <;> omega
+  obtain ⟨k, k1, k2, k3⟩ := hk
+  obtain ⟨u1, u2⟩ := yo_form_unique Y y ot k ⟨h2, h3⟩ ⟨k1, by omega⟩ (by rw [h4, k3])
+  subst u1 u2
+  refine ⟨ywf, h1, h5, ?_⟩
+  rw [h6]
+  have : (ot - 1) / 7 + 1 = 1 := by omega
+  rw [this]; rfl
+
+example : Date.iso_week (dateOfYo 2021 4) = .ok (2021 * 1024 + 1 * 16 + flagsOf 2021) ∧
+    Date.iso_week (dateOfYo 2021 3) = .ok (2020 * 1024 + 53 * 16 + flagsOf 2020) ∧
+    IsoWeek.week (2021 * 1024 + 1 * 16 + flagsOf 2021) = 1 := by decide +kernel
+
 end Chrono.Props.C01
